@@ -47,18 +47,27 @@ type vfSimCfg struct {
 	Clk0       uint32   // clock offset: currentMs() starts at Clk0
 	HorizonMs  uint32   // liveness horizon
 	// reader pause (C03): end B stops reading after PauseAfter segments have been read, for PauseMs
-	PauseAfter int // -1 = never
-	PauseMs    uint32
+	PauseAfter          int    // -1 = never
+	PauseBoth           bool   // end A's reader pauses in the same way (both directions reach a zero window)
+	OutageAfterResumeMs uint32 // every datagram emitted during this long after the reader resumes is lost
+	NeverReadA          bool   // end A's application never reads what end B sends (A's window stays closed); only A->B must complete
+	PauseMs             uint32
 	// drop every datagram that carries no PUSH while the reader is paused and for PauseLoss ms afterwards
-	CtrlDropMask uint32      // bit i set: the i-th control-only (ACK/WASK/WINS) datagram emitted after the pause began is dropped
-	CtrlDropN    int         // how many control-only datagrams are subject to the mask
-	Outage       [2]uint32   // [from, to): every datagram emitted in this interval (ms since start) is dropped
-	Outages      [][2]uint32 // when set, the outage is an environment choice among these
-	Trace        bool
-	CleanPath    bool   // C18: assert that every data sn is transmitted exactly once
-	FateFrom     int    // fates are enumerated for datagrams [FateFrom, FateFrom+K): exploration from a warmed-up connection
-	FixedFates   []int  // replay these fates instead of choosing (differential runs)
-	WriteGapMs   uint32 // the i-th write of end A becomes available at i*WriteGapMs (application-limited sender)
+	CtrlDropMask    uint32      // bit i set: the i-th control-only (ACK/WASK/WINS) datagram emitted after the pause began is dropped
+	CtrlDropN       int         // how many control-only datagrams are subject to the mask
+	Outage          [2]uint32   // [from, to): every datagram emitted in this interval (ms since start) is dropped
+	Outages         [][2]uint32 // when set, the outage is an environment choice among these
+	Trace           bool
+	CleanPath       bool        // C18: assert that every data sn is transmitted exactly once
+	FateFrom        int         // fates are enumerated for datagrams [FateFrom, FateFrom+K): exploration from a warmed-up connection
+	FixedFates      []int       // replay these fates instead of choosing (differential runs)
+	WriteGapMs      uint32      // the i-th write of end A becomes available at i*WriteGapMs (application-limited sender)
+	WriteGapMsB     uint32      // same for end B
+	WriteTimes      [2][]uint32 // explicit availability time of each write (overrides the gaps when set)
+	IntervalB       int         // flush interval of end B (0 = same as A)
+	OffsetB         uint32      // end B's first update happens at this time (phase offset between the two flush clocks)
+	NoWriteDelayB   bool        // session mode: end B flushes right after each write even if WriteDelay is set
+	AckNoDelayOnlyA bool        // AckNoDelay applies to end A only
 }
 
 type vfEvent struct {
@@ -76,8 +85,11 @@ func (h vfEvHeap) Less(i, j int) bool {
 	if h[i].t != h[j].t {
 		return h[i].t < h[j].t
 	}
+	if (h[i].kind == 3) != (h[j].kind == 3) {
+		return h[i].kind == 3 // at one instant: the application produces its data first,
+	}
 	if (h[i].kind == 0) != (h[j].kind == 0) {
-		return h[i].kind == 0 // at one instant, arrivals are processed before timers
+		return h[i].kind == 0 // then arrivals are processed, then timers
 	}
 	return h[i].seq < h[j].seq
 }
@@ -91,23 +103,24 @@ func (h *vfEvHeap) Pop() any {
 }
 
 type vfEnd struct {
-	id       int
-	k        *KCP
-	toWrite  [][]byte
-	nWritten int
-	written  []byte   // stream mode: bytes accepted
-	wmsgs    [][]byte // message mode: messages accepted
-	got      []byte
-	gmsgs    [][]byte
-	seen     map[uint32]int // PUSH sn -> times on the wire
-	updAt    int64          // scheduled update time (-1 none)
-	freeze   bool           // C04: RTO loss seen with congestion control; nothing new until snd_una moves
-	frzUna   uint32
-	frzFast  bool // a fast/early retransmission happened since the timeout loss
-	segsRead int
-	lastUpd  int64
-	paused   bool
-	maxRto   uint32
+	id        int
+	k         *KCP
+	toWrite   [][]byte
+	nWritten  int
+	written   []byte   // stream mode: bytes accepted
+	wmsgs     [][]byte // message mode: messages accepted
+	got       []byte
+	gmsgs     [][]byte
+	seen      map[uint32]int // PUSH sn -> times on the wire
+	updAt     int64          // scheduled update time (-1 none)
+	freeze    bool           // C04: RTO loss seen with congestion control; nothing new until snd_una moves
+	frzUna    uint32
+	frzFast   bool // a fast/early retransmission happened since the timeout loss
+	segsRead  int
+	hasPaused bool
+	lastUpd   int64
+	paused    bool
+	maxRto    uint32
 }
 
 type vfSim struct {
@@ -192,7 +205,11 @@ func vfNewSim(cfg vfSimCfg) *vfSim {
 		if cfg.Mtu != 0 && en.k.SetMtu(cfg.Mtu) != 0 {
 			s.bad("setup", "SetMtu(%d) refused", cfg.Mtu)
 		}
-		en.k.NoDelay(cfg.NoDelay[0], cfg.NoDelay[1], cfg.NoDelay[2], cfg.NoDelay[3])
+		iv := cfg.NoDelay[1]
+		if i == 1 && cfg.IntervalB > 0 {
+			iv = cfg.IntervalB
+		}
+		en.k.NoDelay(cfg.NoDelay[0], iv, cfg.NoDelay[2], cfg.NoDelay[3])
 		if cfg.Stream {
 			en.k.stream = 1
 		}
@@ -427,14 +444,16 @@ func (s *vfSim) post(en *vfEnd, p vfSnap, isInput bool, what string) {
 func (s *vfSim) app(en *vfEnd) {
 	k := en.k
 	// reader
-	for !en.paused {
+	for !en.paused && !(en.id == 0 && s.cfg.NeverReadA) {
 		size := k.PeekSize()
 		if size < 0 {
 			break
 		}
-		if s.cfg.PauseAfter >= 0 && en.id == 1 && s.pausedAt < 0 && en.segsRead >= s.cfg.PauseAfter {
-			en.paused = true
-			s.pausedAt = int64(s.now)
+		if s.cfg.PauseAfter >= 0 && (en.id == 1 || s.cfg.PauseBoth) && !en.hasPaused && en.segsRead >= s.cfg.PauseAfter {
+			en.paused, en.hasPaused = true, true
+			if s.pausedAt < 0 {
+				s.pausedAt = int64(s.now)
+			}
 			s.push(&vfEvent{t: s.now + s.cfg.PauseMs, kind: 2, end: en.id})
 			s.tracef("reader pauses for %dms", s.cfg.PauseMs)
 			break
@@ -467,8 +486,15 @@ func (s *vfSim) app(en *vfEnd) {
 	}
 	// writer
 	for len(en.toWrite) > 0 && s.fail == "" {
-		if en.id == 0 && s.cfg.WriteGapMs > 0 && s.now < uint32(en.nWritten)*s.cfg.WriteGapMs {
+		if wt := s.cfg.WriteTimes[en.id]; wt != nil {
+			if en.nWritten < len(wt) && s.now < wt[en.nWritten] {
+				break // not yet produced by the application
+			}
+		} else if en.id == 0 && s.cfg.WriteGapMs > 0 && s.now < uint32(en.nWritten)*s.cfg.WriteGapMs {
 			break // not yet produced by the application
+		}
+		if en.id == 1 && s.cfg.WriteGapMsB > 0 && s.now < uint32(en.nWritten)*s.cfg.WriteGapMsB {
+			break
 		}
 		en.nWritten++
 		if s.cfg.Mode == "session" {
@@ -494,7 +520,7 @@ func (s *vfSim) app(en *vfEnd) {
 					en.wmsgs = append(en.wmsgs, append([]byte(nil), chunk...))
 				}
 			}
-			if k.WaitSnd() >= int(k.snd_wnd) || !s.cfg.WriteDelay {
+			if k.WaitSnd() >= int(k.snd_wnd) || !s.cfg.WriteDelay || (en.id == 1 && s.cfg.NoWriteDelayB) {
 				k.flush(IKCP_FLUSH_FULL)
 			}
 			s.post(en, p, false, "Write")
@@ -540,18 +566,22 @@ func (s *vfSim) schedUpdate(en *vfEnd, at uint32) {
 }
 
 func (s *vfSim) recheck(en *vfEnd) {
-	if s.cfg.Mode != "update" {
-		return
+	if s.cfg.Mode != "update" || en.k.updated == 0 {
+		return // (the first Update of each end is scheduled explicitly: it fixes the phase of its flush clock)
 	}
 	// ikcp_check: when to call Update next if nothing else happens
 	at := en.k.Check() - s.cfg.Clk0
 	if int32(at-s.now) < 0 {
 		at = s.now
 	}
-	// Check answers "now" while a resend is due but the flush tick is not: a real caller polls; the
-	// simulation moves on by one millisecond instead of spinning at the same instant
+	// Check answers "now" while a resend is due but the flush tick is not: a real caller polls Update until the tick
+	// arrives; the simulation goes straight to that tick (the next call that can do anything), which also keeps the
+	// flush clock strictly periodic
 	if en.lastUpd >= 0 && int64(at) <= en.lastUpd {
-		at = uint32(en.lastUpd) + 1
+		at = en.k.ts_flush - s.cfg.Clk0
+		if int64(at) <= en.lastUpd {
+			at = uint32(en.lastUpd) + 1
+		}
 	}
 	if en.updAt < 0 || int64(at) < en.updAt {
 		s.schedUpdate(en, at)
@@ -561,6 +591,12 @@ func (s *vfSim) recheck(en *vfEnd) {
 func (s *vfSim) done() bool {
 	for i := 0; i < 2; i++ {
 		en := s.e[i]
+		if s.cfg.NeverReadA && i == 1 {
+			if en.paused {
+				return false
+			}
+			continue // what end B sends is never read: only the A->B direction is required to complete
+		}
 		if len(en.toWrite) > 0 || en.k.WaitSnd() != 0 || en.paused {
 			return false
 		}
@@ -578,8 +614,17 @@ func (s *vfSim) done() bool {
 
 // run executes the simulation to completion (drained, violation, or horizon).
 func (s *vfSim) run() {
-	for i := 0; i < 2; i++ {
-		s.schedUpdate(s.e[i], 0)
+	s.schedUpdate(s.e[0], 0)
+	s.schedUpdate(s.e[1], s.cfg.OffsetB)
+	for end := 0; end < 2; end++ {
+		for _, t := range s.cfg.WriteTimes[end] {
+			s.push(&vfEvent{t: t, kind: 3, end: end})
+		}
+	}
+	if s.cfg.WriteGapMsB > 0 {
+		for i := range s.cfg.Writes[1] {
+			s.push(&vfEvent{t: uint32(i) * s.cfg.WriteGapMsB, kind: 3, end: 1})
+		}
 	}
 	if s.cfg.WriteGapMs > 0 {
 		for i := range s.cfg.Writes[0] {
@@ -628,7 +673,7 @@ func (s *vfSim) run() {
 		case 0:
 			s.tracef("end%d receives %d bytes", en.id, len(ev.data))
 			p := s.pre(en)
-			r := en.k.Input(ev.data, IKCP_PACKET_REGULAR, s.cfg.AckNoDelay)
+			r := en.k.Input(ev.data, IKCP_PACKET_REGULAR, s.cfg.AckNoDelay && !(en.id == 1 && s.cfg.AckNoDelayOnlyA))
 			s.post(en, p, true, "Input")
 			if r != 0 {
 				s.bad("C01:genuine-packet-rejected", "Input rejected a genuine datagram with %d", r)
@@ -658,6 +703,9 @@ func (s *vfSim) run() {
 		case 2:
 			en.paused = false
 			s.tracef("reader resumes")
+			if s.cfg.OutageAfterResumeMs > 0 {
+				s.cfg.Outage = [2]uint32{s.now, s.now + s.cfg.OutageAfterResumeMs}
+			}
 		case 3: // the application has produced its next write
 		}
 		s.app(en)
